@@ -95,6 +95,10 @@ func evalHeader(h []byte, allow bool, res *ev.Result, lc *local) {
 		if !allow && !spec.Supported(fc) {
 			res.Violate(ev.Violation{Check: "header", Kind: "unsupported-fc-accepted", Attrs: attrs, Msg: fmt.Sprintf("header %s: unsupported function %d accepted without error", ev.Hex(h), fc), Case: mk()})
 		}
+		if n > 0 && n <= len(h) {
+			// accepted with an expected length that is already available: the delimited bytes go to the dispatcher now
+			dispatch(h[:n:n], h, allow, attrs, res, func() Case { return Case{Part: "header", Data: hex.EncodeToString(h), Allow: allow} })
+		}
 		return
 	}
 	if n != 0 {
@@ -172,15 +176,24 @@ func evalDelimited(frame []byte, allow bool, res *ev.Result, lc *local) {
 		return // not accepted with this length: nothing to check here (header part covers the classification)
 	}
 	lc.nontrivial++
+	dispatch(frame[:n:n], frame, allow, attrs, res, mk)
+}
+
+// dispatch: what the classifier accepted with expected length n is, once n bytes are available, either parsed by the
+// request dispatcher or rejected with an error that encodes to a valid exception reply.
+func dispatch(delimited, frame []byte, allow bool, attrs map[string]any, res *ev.Result, mk func() Case) {
+	n := len(delimited)
+	fc := frame[7]
 	var v packet.Request
 	var perr error
+	pan := ""
 	func() {
 		defer func() {
 			if rec := recover(); rec != nil {
 				pan = fmt.Sprint(rec)
 			}
 		}()
-		v, perr = packet.ParseTCPRequest(frame[:n:n])
+		v, perr = packet.ParseTCPRequest(delimited)
 	}()
 	if pan != "" {
 		res.Violate(ev.Violation{Check: "delimited", Kind: "dispatcher-panic", Attrs: attrs, Msg: fmt.Sprintf("classifier accepted %s (n=%d) but ParseTCPRequest panicked: %s", ev.Hex(frame), n, pan), Case: mk()})
@@ -227,10 +240,12 @@ func encodable() []spec.Req {
 		}
 		out = append(out, spec.Req{FC: 15, Addr: 0x13, Qty: uint16(q), Data: lib.Pattern("pos", (q+7)/8, 0)})
 	}
-	for q := 1; q <= 123; q++ {
+	// (the loops go past the specification's limits 123 / 121 on purpose: whatever the library's constructors agree to
+	// encode is "a request frame the library can encode"; what they refuse is skipped)
+	for q := 1; q <= 126; q++ {
 		out = append(out, spec.Req{FC: 16, Addr: 1, Qty: uint16(q), Data: lib.Pattern("pos", 2*q, 0)})
 	}
-	for q := 1; q <= 121; q++ {
+	for q := 1; q <= 126; q++ {
 		out = append(out, spec.Req{FC: 23, Addr: 3, Qty: 6, WAddr: 14, WQty: uint16(q), Data: lib.Pattern("pos", 2*q, 0)})
 	}
 	return out
